@@ -850,8 +850,13 @@ static int c13_cmd (char *line)
       int guard = 0;
       while (sockq_len > 0 && alive () && ++guard < 20000)
         {
+          size_t before = sockq_len;
           do_read ();
           int g2 = 0;
+          /* nothing read and nothing to extract: every further round would be the same (only a tree that holds reads
+           * back without a pending command gets here; the judge reports the unread bytes as `stalled`) */
+          if (sockq_len == before && !do_extract ())
+            break;
           while (do_extract ())
             if (++g2 >= 1100)
               {
